@@ -361,6 +361,52 @@ def short(x):
     return x
 
 
+class Text(type("")):
+    """A subclass of the text type whose str()/repr() are not its characters."""
+
+    def __str__(self):
+        return "Text.member"
+
+    def __repr__(self):
+        return "<Text>"
+
+
+def types_cases(T, tier):
+    """Arguments and objects that are not plain: a subclass of the text type as argument, objects
+    after copy / deepcopy / a pickle round trip, instances of a trivial subclass."""
+    import copy
+    import pickle
+    import cvss
+    from cvss.parser import parse_cvss_from_text
+    C = {"2": cvss.CVSS2, "3.0": cvss.CVSS3, "3.1": cvss.CVSS3, "4.0": cvss.CVSS4}
+    SUB = dict((k, type(str("Finding"), (c,), {})) for k, c in C.items())
+    out = []
+    vs = [(f, v) for f, v in vectors(T, "quick")][::53][:60] + [("2", "AV:N"), ("3.1", "CVSS:3.1/AV:N"), ("4.0", "x")]
+
+    def nomsg(o):
+        # error *messages* echo the argument through format(), which treats a subclass of the text
+        # type differently on 2.7 and 3.x - that is this probe's Text class, not the library
+        return [o[0], o[1]] + list(o[3:]) if o and o[0] == "EXC" else o
+
+    def one(f, v):
+        cls = C[f]
+        plain = obs_vector(cls, v)
+        res = [f, v, nomsg(obs_vector(cls, Text(v))) == nomsg(plain),
+               nomsg(obs_rh(cls, Text("0.0/" + v))) == nomsg(obs_rh(cls, "0.0/" + v)),
+               obs_vector(SUB[f], v) == plain]
+        if f != "4.0":
+            res.append(obs_text(Text("see " + v + ".")) == obs_text("see " + v + "."))
+        if plain[0] == "OK":
+            o = cls(v)
+            for p in (copy.copy(o), copy.deepcopy(o), pickle.loads(pickle.dumps(o, 2)), SUB[f](v)):
+                res.append([p == o, o == p, hash(p) == hash(o), p.clean_vector() == o.clean_vector(),
+                            p.scores() == o.scores(), J(p.as_json()) == J(o.as_json())])
+        return res
+    for f, v in vs:
+        out.append((lambda f=f, v=v: one(f, v)))
+    return out
+
+
 def scale_cases(T, tier):
     """(label, thunk): inputs whose size, not whose content, is the point. What an interpreter does
     with them (integer-string limits, recursion depth, regular-expression engines, buffer sizes)
@@ -449,10 +495,12 @@ def section_cases(T, name, tier):
         return [(lambda c=c: [c[0], obs_cli(*c)]) for c in cli_cases(T, tier)]
     if name == "scale":
         return scale_cases(T, tier)
+    if name == "types":
+        return types_cases(T, tier)
     raise SystemExit("unknown section " + name)
 
 
-SECTIONS = ["vectors", "invalid", "rh", "texts", "builder", "cli", "scale"]
+SECTIONS = ["vectors", "invalid", "rh", "texts", "builder", "cli", "scale", "types"]
 
 
 def main(argv):
